@@ -1370,4 +1370,27 @@ theorem fromData_congr (sub : Hdr → Bytes → Except PyErr (List Val × Bytes)
   have h3 : ¬ h.version = 3 := by omega
   simp only [fromData, hv, ↓reduceIte, he1, hc1, he2, hc2, hd, h3, false_and, Bool.false_eq_true]
 
+theorem structOK_greedy (specs : List FieldSpec) (h : structOK specs = true) (pre : List FieldSpec)
+    (s : FieldSpec) (post : List FieldSpec) (he : specs = pre ++ s :: post) (hp : post ≠ []) :
+    greedy s.kind = false := by
+  induction pre generalizing specs with
+  | nil =>
+    subst he
+    simp only [List.nil_append, structOK, Bool.and_eq_true, Bool.or_eq_true, Bool.not_eq_true'] at h
+    rcases h.1.1.1.1 with hg | hg
+    · exact hg
+    · cases post with
+      | nil => exact absurd rfl hp
+      | cons _ _ => simp at hg
+  | cons p pre ih =>
+    subst he
+    simp only [List.cons_append, structOK, Bool.and_eq_true] at h
+    exact ih _ h.2 rfl
+
+
+theorem Table.find_mem (tbl : Table) (nb : Bytes) (h : (tbl.find nb).isSome = true) : (tbl.find nb).get! ∈ tbl := by
+  cases hf : tbl.find nb with
+  | none => simp [hf] at h
+  | some c => exact List.mem_of_find?_eq_some hf
+
 end Mutagen.Id3
